@@ -151,9 +151,8 @@ func runScenario(sc *scen.Scenario, out *bufio.Writer) {
 	}
 	w.emitV(scen.Event{K: "start", S: fmt.Sprintf("testing=%v level=%d src=%s", is.InTesting(), int(slog.GetLevel()), srcDir())}, map[string]any{"names": names, "slog_terminating": []int{int(slog.LevelFatal), int(slog.LevelPanic)}})
 
-	// setup by task 0, unscheduled
-	w.sch = nil
-	w.runOps(0, "setup", sc.Setup)
+	// setup by task 0 (the interpreter's own goroutine; see runSeq)
+	w.runSeq("setup", sc.Setup)
 
 	if len(sc.Tasks) > 0 {
 		w.runTasks()
@@ -164,7 +163,7 @@ func runScenario(sc *scen.Scenario, out *bufio.Writer) {
 		}
 		w.sch = nil
 	}
-	w.runOps(0, "tail", sc.Tail)
+	w.runSeq("tail", sc.Tail)
 	w.emit(scen.Event{K: "end"})
 	res.Done = true
 }
@@ -210,11 +209,17 @@ func (w *W) emitV(e scen.Event, v any) {
 	w.emit(e)
 }
 
+// inTasks: the caller tasks' phase is running (not set-up or tail, which have a scheduler of their own since R8).
+func (w *W) inTasks() bool { return w.sch != nil && !w.sch.seq }
+
 func (w *W) task() int {
 	if w.sch != nil {
 		t := w.sch.current()
 		if t > 0 && t < maxTasks && w.sch.owner[t] != 0 {
-			return w.sch.owner[t] // a goroutine the library started: its events belong to the call it serves
+			t = w.sch.owner[t] // a goroutine the library started: its events belong to the call it serves
+		}
+		if w.sch.seq {
+			return 0 // the sequential phases are task 0's
 		}
 		return t
 	}
